@@ -137,6 +137,25 @@ func c02Check(c *run.Ctx, st *c02State, b []byte, family string, salt uint64) []
 			nDraw++
 		}
 	}
+	// (i') the same calls arrive when the recorder sits behind the public logging
+	// wrapper (either log format): the first of them is Reset there too
+	if salt%8 == 1 {
+		c.Count("decodes_through_destination_logger", 1)
+		c.Guard("Decode(DestinationLogger)", detail, func() {
+			ld := &rec.Dest{MaxOps: len(b) + 8}
+			lerr := decode.Decode(&ivg.DestinationLogger{Destination: ld, Alt: salt%16 == 1}, b)
+			if (lerr == nil) != (err == nil) || len(ld.Ops) != len(ops) {
+				fail("calls-through-the-logger-differ", map[string]interface{}{"direct_calls": len(ops), "through_logger": len(ld.Ops), "direct_error": errStr(err), "logger_error": errStr(lerr)})
+				return
+			}
+			for i := range ops {
+				if !rec.Equal(ops[i], ld.Ops[i]) {
+					fail("calls-through-the-logger-differ", map[string]interface{}{"index": i, "direct": ops[i].String(), "through_logger": ld.Ops[i].String()})
+					return
+				}
+			}
+		})
+	}
 	// (ii) Encoder
 	c.Guard("Decode(Encoder)", detail, func() {
 		var e encode.Encoder
@@ -165,6 +184,17 @@ func c02Check(c *run.Ctx, st *c02State, b []byte, family string, salt uint64) []
 			if !premulOK(r, g, bb, a) {
 				fail("paint-not-premultiplied", map[string]interface{}{"at": p.String(), "rgba": []uint32{r, g, bb, a}})
 			}
+		}
+	}
+	// every path is composited over the target rectangle (the zero rectangle for an
+	// empty target), the paint aligned with its corner
+	effRect := rect
+	if rect.Empty() {
+		effRect = image.Rectangle{}
+	}
+	st.rz.OnDrawRect = func(dr image.Rectangle, sp image.Point) {
+		if dr != effRect || sp != (image.Point{}) {
+			fail("path-not-drawn-over-the-target-rectangle", map[string]interface{}{"draw_rectangle": dr.String(), "source_point": sp.String(), "target": rect.String()})
 		}
 	}
 	// Online bound: every delivered call consumed at least one input byte and may
